@@ -13,6 +13,11 @@ package main
 //        exactly that plaintext (rounding margin >> FFT error); non-constant vectors, all slot counts, both rings,
 //        float64 and arbitrary-precision encoder (the latter after a low-precision Encode on the same encoder);
 //        conjugate-invariant ring: the inputs additionally carry non-zero imaginary parts, which must be discarded
+//   ckks fixedpoint <P> <scale> <x> <qs>  -> residues written by the exported conversion functions themselves
+//        (SingleFloat64ToFixedPointCRT: P = 53; BigFloatToFixedPointCRT / ComplexArbitraryToFixedPointCRT: P = precision),
+//        reduced mod q_i, at the BOUNDARY magnitudes |x|*scale in {2^52, 2^53-1, 2^53+1, 2^62, 2^63-1, 2^63, 2^63+1, 2^64-1,
+//        2^64, 2^64+1, 2^65, 2^100} (float64 path: the representable neighbours), both signs, levels 0 and max, scales
+//        2^20 2^30 2^45; the same magnitudes also go through Encode (enccoef / encslot lines, real and imaginary parts)
 //   ckks bitrev <bits> <i>                                    -> utils.BitReverse64
 //   ckks roundprec <num> <den> <logprec>                      -> DecodePublic(one slot) * 2^logprec
 // Probes:
@@ -28,6 +33,7 @@ package main
 //                            a multiple of 2^-logprec AND within half a step of the Decode value, negative and positive
 //   encode_length_check      all four input types x both precision paths x sparse slot counts: len = slots accepted,
 //                            len < slots zero-padded, len = slots+1 / MaxSlots / MaxSlots+1 refused with an error
+//   encode_boundary_roundtrip  Decode(Encode(v)) for the boundary magnitudes that fit Q_level (key ckks-encode-boundary-magnitude)
 //   errors_not_panics
 
 import (
@@ -571,6 +577,221 @@ func (e *c07cEnv) tieRoundPrecBig(c *Ctx) {
 			}
 			c.Emit(fmt.Sprintf("ckks roundprec %d %s %d", coef, den, lp), o)
 			c.Count("tie:roundprec-big")
+		}
+	}
+}
+
+// c07cBoundaries: the integers K = |v|*scale at which the float -> RNS conversions change regime.
+func c07cBoundaries() (exact, f64 []*big.Int) {
+	p := func(k uint) *big.Int { return new(big.Int).Lsh(big.NewInt(1), k) }
+	add := func(a *big.Int, d int64) *big.Int { return new(big.Int).Add(a, big.NewInt(d)) }
+	exact = []*big.Int{p(52), add(p(53), -1), add(p(53), 1), p(62), add(p(63), -1), p(63), add(p(63), 1), add(p(64), -1),
+		p(64), add(p(64), 1), p(65), p(100)}
+	// float64-representable neighbours (53-bit mantissa)
+	f64 = []*big.Int{p(52), add(p(53), -1), p(53), add(p(53), 2), p(62), add(p(63), -1024), p(63), add(p(63), 2048),
+		add(p(64), -2048), p(64), add(p(64), 4096), p(65), p(100)}
+	return
+}
+
+// tieBoundary: boundary magnitudes through every float -> RNS conversion path.
+func (e *c07cEnv) tieBoundary(c *Ctx) {
+	exact, f64 := c07cBoundaries()
+	red := func(coeffs [][]uint64, idx int, qs []uint64) string {
+		out := make([]uint64, len(qs))
+		for j, q := range qs {
+			out[j] = coeffs[j][idx] % q
+		}
+		return Vec(out)
+	}
+	for _, logS := range []int{20, 30, 45} {
+		scale := rlwe.NewScale(math.Exp2(float64(logS)))
+		for _, level := range []int{0, e.params.MaxLevel()} {
+			r := e.params.RingQ().AtLevel(level)
+			qs := e.params.Q()[:level+1]
+			mkCoeffs := func() [][]uint64 {
+				m := make([][]uint64, level+1)
+				for j := range m {
+					m[j] = make([]uint64, e.N)
+				}
+				return m
+			}
+			val := func(K *big.Int, neg bool) *big.Float {
+				v := new(big.Float).SetPrec(128).SetInt(K)
+				v.SetMantExp(v, -logS)
+				if neg {
+					v.Neg(v)
+				}
+				return v
+			}
+			for _, neg := range []bool{false, true} {
+				// float64 path: the exported single-value conversion, then Encode in both domains
+				for _, K := range f64 {
+					v := val(K, neg)
+					vf := c07cF64(v)
+					coeffs := mkCoeffs()
+					out := Try(func() string {
+						ckks.SingleFloat64ToFixedPointCRT(r, 3, vf, scale.Float64(), coeffs)
+						return red(coeffs, 3, qs)
+					})
+					c.Emit(fmt.Sprintf("ckks fixedpoint 53 %s %s %s", c06Dy(&scale.Value), c06Dy(v), Vec(qs)), out)
+					c.Count("tie:fixedpoint-f64")
+					// coefficient domain through Encode ([]float64): v, -v
+					nv := new(big.Float).Neg(v)
+					pt := ckks.NewPlaintext(e.params, level)
+					pt.Scale, pt.IsBatched = scale, false
+					out = Try(func() string {
+						if err := e.ecd64.Encode([]float64{vf, -vf}, pt); err != nil {
+							return "err"
+						}
+						return e.coeffs(pt)
+					})
+					c.Emit(fmt.Sprintf("ckks enccoef %d %s 53 %s %s;%s", e.N, Vec(qs), c06Dy(&scale.Value), c06Dy(v), c06Dy(nv)), out)
+					// slot domain: constant vector, real part v, imaginary part -v (standard ring)
+					ls := 1 + c.rng.Intn(e.logMax)
+					vals := make([]complex128, 1<<ls)
+					im := nv
+					if e.ci {
+						im = new(big.Float)
+					}
+					for i := range vals {
+						vals[i] = complex(vf, c07cF64(im))
+					}
+					pt2 := ckks.NewPlaintext(e.params, level)
+					pt2.Scale = scale
+					pt2.LogDimensions.Cols = ls
+					out = Try(func() string {
+						if err := e.ecd64.Encode(vals, pt2); err != nil {
+							return "err"
+						}
+						return e.coeffs(pt2)
+					})
+					c.Emit(fmt.Sprintf("ckks encslot %d %s %s 53 %s %d %s %s", e.N, e.ciTok(), Vec(qs), c06Dy(&scale.Value), 1<<ls, c06Dy(v), c06Dy(im)), out)
+					c.Count("tie:boundary-encode-f64")
+				}
+				// arbitrary-precision paths
+				for _, K := range exact {
+					v := val(K, neg)
+					nv := new(big.Float).Neg(v)
+					coeffs := mkCoeffs()
+					out := Try(func() string {
+						ckks.BigFloatToFixedPointCRT(r, []*big.Float{nil, v}, &scale.Value, coeffs)
+						return red(coeffs, 1, qs)
+					})
+					c.Emit(fmt.Sprintf("ckks fixedpoint 128 %s %s %s", c06Dy(&scale.Value), c06Dy(v), Vec(qs)), out)
+					coeffs = mkCoeffs()
+					var outRe, outIm string
+					res := Try(func() string {
+						ckks.ComplexArbitraryToFixedPointCRT(r, []*bignum.Complex{{v, nv}}, &scale.Value, coeffs)
+						outRe, outIm = red(coeffs, 0, qs), red(coeffs, 1, qs)
+						return ""
+					})
+					if res != "" {
+						outRe, outIm = res, res
+					}
+					c.Emit(fmt.Sprintf("ckks fixedpoint 128 %s %s %s", c06Dy(&scale.Value), c06Dy(v), Vec(qs)), outRe)
+					if !e.ci {
+						c.Emit(fmt.Sprintf("ckks fixedpoint 128 %s %s %s", c06Dy(&scale.Value), c06Dy(nv), Vec(qs)), outIm)
+					}
+					c.Count("tie:fixedpoint-big")
+					// through Encode: coefficient domain ([]*big.Float) and slot domain (big encoder, constant vector)
+					pt := ckks.NewPlaintext(e.params, level)
+					pt.Scale, pt.IsBatched = scale, false
+					out = Try(func() string {
+						if err := e.ecd64.Encode([]*big.Float{v, nv}, pt); err != nil {
+							return "err"
+						}
+						return e.coeffs(pt)
+					})
+					c.Emit(fmt.Sprintf("ckks enccoef %d %s 128 %s %s;%s", e.N, Vec(qs), c06Dy(&scale.Value), c06Dy(v), c06Dy(nv)), out)
+					ls := 1 + c.rng.Intn(e.logMax)
+					vals := make([]*bignum.Complex, 1<<ls)
+					im := nv
+					if e.ci {
+						im = new(big.Float).SetPrec(128)
+					}
+					for i := range vals {
+						vals[i] = &bignum.Complex{new(big.Float).Copy(v), new(big.Float).Copy(im)}
+					}
+					pt2 := ckks.NewPlaintext(e.params, level)
+					pt2.Scale = scale
+					pt2.LogDimensions.Cols = ls
+					P := e.precB
+					if P < 128 {
+						P = 128
+					}
+					out = Try(func() string {
+						if err := e.ecdBig.Encode(vals, pt2); err != nil {
+							return "err"
+						}
+						return e.coeffs(pt2)
+					})
+					c.Emit(fmt.Sprintf("ckks encslot %d %s %s %d %s %d %s %s", e.N, e.ciTok(), Vec(qs), P, c06Dy(&scale.Value), 1<<ls, c06Dy(v), c06Dy(im)), out)
+					c.Count("tie:boundary-encode-big")
+				}
+			}
+			// round trip of the magnitudes that fit Q_level
+			logQ := e.params.LogQLvl(level)
+			for _, useBig := range []bool{false, true} {
+				list, ecd := f64, e.ecd64
+				if useBig {
+					list, ecd = exact, e.ecdBig
+				}
+				for _, K := range list {
+					if K.BitLen()+3 > logQ {
+						continue
+					}
+					for _, slotDomain := range []bool{false, true} {
+						v := c07cF64(val(K, false))
+						args := fmt.Sprintf("%s K=%s logScale=%d level=%d big=%v slots=%v", e.tag, K.String(), logS, level, useBig, slotDomain)
+						d := Try(func() string {
+							pt := ckks.NewPlaintext(e.params, level)
+							pt.Scale = scale
+							tol := math.Abs(v)*math.Exp2(-40) + math.Exp2(float64(-(logS - e.params.LogN() - 3)))
+							if slotDomain {
+								ls := 1 + c.rng.Intn(e.logMax)
+								pt.LogDimensions.Cols = ls
+								in := make([]complex128, 1<<ls)
+								for i := range in {
+									in[i] = complex(v, -v)
+									if e.ci {
+										in[i] = complex(-v, 0)
+									}
+								}
+								if err := ecd.Encode(in, pt); err != nil {
+									return "encode error"
+								}
+								have := make([]complex128, 1<<ls)
+								if err := ecd.Decode(pt, have); err != nil {
+									return "decode error"
+								}
+								for i := range have {
+									if x := cmplx.Abs(have[i] - in[i]); !(x <= tol) {
+										return fmt.Sprintf("slot %d: got %g want %g", i, have[i], in[i])
+									}
+								}
+								return ""
+							}
+							pt.IsBatched = false
+							var in interface{} = []float64{v, -v}
+							if useBig {
+								in = []*big.Float{new(big.Float).SetPrec(128).SetFloat64(v), new(big.Float).SetPrec(128).SetFloat64(-v)}
+							}
+							if err := ecd.Encode(in, pt); err != nil {
+								return "encode error"
+							}
+							have := make([]float64, 2)
+							if err := ecd.Decode(pt, have); err != nil {
+								return "decode error"
+							}
+							if !(math.Abs(have[0]-v) <= tol) || !(math.Abs(have[1]+v) <= tol) {
+								return fmt.Sprintf("got %g,%g want %g,%g", have[0], have[1], v, -v)
+							}
+							return ""
+						})
+						c.Probe("encode_boundary_roundtrip", args, "C07/ckks-encode-boundary-magnitude", d)
+					}
+				}
+			}
 		}
 	}
 }
@@ -1169,6 +1390,7 @@ func genC07CKKS(c *Ctx) {
 		e.tieSlots(c)
 		e.tiePoly(c)
 		e.tieCoeffs(c)
+		e.tieBoundary(c)
 		e.probeHistory(c)
 		e.tieRoundPrec(c)
 		e.tieRoundPrecBig(c)
